@@ -30,7 +30,7 @@ UnaryOps == {"wrap_pie", "password_wrap", "public_key", "display", "debug", "exp
              "send_sync"}
 \* operations on tokens
 TokenOps == {"decrypt_encrypted", "verify_signed", "verify_encrypted", "decrypt_signed",
-             "display_sealed", "display_unsealed", "serde_sealed", "serde_unsealed", "serde_unsealed_claims", "serde_unencrypted_claims", "seal_inferred", "wrap_inferred", "claims_of_sealed", "footer_unverified",
+             "display_sealed", "display_unsealed", "serde_sealed", "serde_unsealed", "serde_unsealed_claims", "serde_unencrypted_claims", "seal_inferred", "wrap_inferred", "deref_sealed", "asref_sealed", "claims_of_sealed", "footer_unverified",
              "footer_field_of_sealed", "payload_field_of_sealed", "claims_of_unsealed", "footer_of_unsealed", "debug_sealed",
              \* the backend crates' own aliases denote exactly the core types their names say
              \* the purpose-named entry points with an explicit assertion, on a token of the other purpose with the key that fits the token
@@ -93,6 +93,7 @@ Permitted(p) ==
     [] p.op = "serde_unsealed" -> FALSE
     [] p.op = "claims_of_sealed" -> FALSE                                \* claims are reachable only after unsealing
     [] p.op = "footer_unverified" -> TRUE
+    [] p.op \in {"deref_sealed", "asref_sealed"} -> FALSE                          \* (C12) nor by auto-deref / AsRef
     [] p.op = "footer_field_of_sealed" -> FALSE                          \* (C12) the footer of a sealed token only through the accessor named unverified
     [] p.op = "payload_field_of_sealed" -> FALSE
     [] p.op = "debug_sealed" -> FALSE                                    \* (C12) formatting a sealed token must not reach the unverified footer
